@@ -188,7 +188,8 @@ def run(chk: Check) -> int:
     cases, metas = [], []
     hist = {"op": {}, "dim": {}, "domain": {}, "loss": {}, "vdim": {}, "func": {}}
     tot = {"ops": 0, "worst_simplex_checked": 0, "subtriangulations_checked": 0, "losses_recomputed": 0, "asks": 0,
-           "histories_with_F5_trigger": 0, "histories_with_F12_trigger": 0, "rescales": 0}
+           "histories_with_F5_trigger": 0, "histories_with_F12_trigger": 0, "rescales": 0,
+           "tri_first_built_by_loss_after_tell": {"2": 0, "3": 0}}
 
     def bump(h, k):
         hist[h][str(k)] = hist[h].get(str(k), 0) + 1
@@ -207,6 +208,7 @@ def run(chk: Check) -> int:
         tot["subtriangulations_checked"] += orc.stats["subtri_checked"]
         tot["losses_recomputed"] += orc.stats["losses_checked"]
         tot["asks"] += orc.stats["asks"]
+        tot["tri_first_built_by_loss_after_tell"][str(cfg["dim"])] += orc.stats["tri_first_built_by_loss"]
         tot["histories_with_F5_trigger"] += orc.f5_trigger is not None
         tot["histories_with_F12_trigger"] += orc.f12_trigger is not None
         tot["rescales"] += sum(1 for st in hooks.steps if st["env"]["rescale"])
@@ -247,7 +249,8 @@ def run(chk: Check) -> int:
     return chk.finish(
         level="proof",
         rule="real LearnerND driven in 2-D and 3-D on rectangular and ConvexHull domains, scalar and 2-vector outputs, "
-             "default_loss and uniform_loss, functions smooth / steep (range growth > 1.1) / constant; histories mix ask(1..2^d+1), "
+             "default_loss and uniform_loss, functions smooth / steep (range growth > 1.1) / constant / ramp and slow (values that do not grow the output range); loss() is "
+             "the first thing read from the learner after every operation (the triangulation is built lazily); histories mix ask(1..2^d+1), "
              "tells of outstanding points in random order, unsolicited tells and tell_pending, remove_unfinished; non-trivial = an "
              "out-of-order tell, a sub-triangulation present at some step and a point inserted beyond the corners; distinct by "
              "(config, ops)",
